@@ -1054,7 +1054,7 @@ def run_check(prop, tier):
     base = core.base_seed()
     known = core.load_known()
     if tier == "quick":
-        njobs, nrep, rounds = (300, 48, 1) if prop != "C18" else (120, 40, 1)
+        njobs, nrep, rounds = (300, 48, 3) if prop != "C18" else (120, 40, 1)
     else:
         njobs, nrep, rounds = (300, 64, 60) if prop != "C18" else (150, 64, 20)
     if "DTSIM_RUNS" in os.environ:
